@@ -29,7 +29,7 @@ REAL, STUBBED = C.REAL, C.STUBBED
 
 
 def budget(tier):
-    return dict(nights=110, wall_s=170) if tier == "quick" else dict(nights=3500, wall_s=1700)
+    return dict(nights=330, wall_s=240) if tier == "quick" else dict(nights=3500, wall_s=1700)
 
 
 WORLD = dict(offices=["G", "S", "H"], unit_types=["precinct", "precinct", "county"], n_states=(1, 4), n_counties=(2, 6),
